@@ -245,13 +245,11 @@ Definition Twist_mul (tw se : cls) (r : kind) : mres :=
   | KFloat | KInt => Out (Value (RObj tw) Computed)
   | KArr _ => Out Raise
   end.
-(* Twist3.__rmul__ / Twist2.__rmul__ (after fix 11978d3):  if isscalar(left): return TwistN(right.S * left)  else raise.
-   [.S] is the element for a single-valued twist but the Python LIST of elements for a multi-valued one: list * int repeats
-   the list (the constructor accepts it: the twist's own elements, repeated), list * float is a TypeError. *)
+(* Twist3.__rmul__ / Twist2.__rmul__ (after fixes 11978d3, d78118f):
+   if isscalar(left): return TwistN([x * left for x in right.data])  else raise -- every element is scaled, whatever the length *)
 Definition Twist_rmul (sc : cls) (l : kind) : mres :=
   match l with
-  | KInt => Out (Value (RObj sc) (if n =? 1 then Computed else ListOp))
-  | KFloat => if n =? 1 then Out (Value (RObj sc) Computed) else Out Raise
+  | KInt | KFloat => Out (Value (RObj sc) Computed)
   | _ => Out Raise
   end.
 (* SMTwist.__eq__/__ne__, :262-264/:287-289 *)
@@ -621,7 +619,6 @@ Inductive cause :=
   | IsinstanceAsym        (* SMPose.__mul__/__truediv__ test isinstance(left, right.__class__): SE3 op SO3, SE2 op SO2 give the identity *)
   | UserListAdd           (* Twist2/Twist3/Plucker inherit UserList.__add__: list concatenation *)
   | UserListRepeat        (* spatial vectors inherit UserList.__mul__: list repetition by an int (list * ndarray for an array) *)
-  | TwistRmulMulti        (* Twist2/Twist3.__rmul__ multiply right.S, a Python list for a multi-valued twist: int * twist repeats the list *)
   | DQMulNone             (* DualQuaternion.__mul__ has no else: returns None *)
   | UserListEq            (* spatial vectors / SpatialInertia inherit UserList.__eq__: bool(array == array) raises *)
   | PluckerEqMulti.       (* Plucker.__eq__/__ne__ compare the first elements only: one bool for a sequence *)
@@ -656,7 +653,6 @@ Definition root_cause (n : nat) (o : op) (l r : kind) : option cause :=
               && (let t := bshape (n :: eshape H a) s in isvector t 6 || match t with [6; _] => true | _ => false end)
            then Some UserListRepeat       (* list * ndarray is a NumPy product that the constructor accepts *)
            else None
-  | Mul, KInt, Obj b => if isinst b (B SMTwist) && opt_pyc_beq (owner b (Rev Mul)) (Some (C b)) && negb (n =? 1) then Some TwistRmulMulti else None
   | Eq, Obj a, Obj b | Ne, Obj a, Obj b =>
       if cls_beq a b then
         (if opt_pyc_beq (owner a (Fwd Eq)) (Some (B UserList)) then Some UserListEq
@@ -675,7 +671,6 @@ Definition cause_outcome (c : cause) (n : nat) (o : op) (l r : kind) : outcome :
       Value (RObj a) (match r with Obj b => if cls_beq a b then ListOp else ForeignElements | _ => ForeignElements end)
   | UserListRepeat, Obj a =>
       match r with KArr s => SpatialVector_ctor_array a (bshape (n :: eshape H a) s) | _ => Value (RObj a) ListOp end
-  | TwistRmulMulti, _ => match r with Obj b => Value (RObj b) ListOp | _ => Unmodelled end
   | DQMulNone, _ => ReturnsNone
   | UserListEq, _ => Raise
   | PluckerEqMulti, _ => Value RBool Computed
